@@ -122,6 +122,8 @@ func (r *replica) buildTx(t TxSpec, height int64) ([]byte, error) {
 	if t.Raw != "" {
 		return hex.DecodeString(t.Raw)
 	}
+	curReplica, curBuildHeight = r, height
+	defer func() { curReplica = nil }()
 	return buildTxBytes(t, height)
 }
 
